@@ -2,51 +2,39 @@
 """Regenerates /verif/MANIFEST.json from the table below."""
 import json, sys
 
-TECH = "bounded symbolic execution of the real go/ssa of /repo (own executor) with z3 deciding every branch and assertion; counterexamples replayed natively"
+TECH = "bounded symbolic execution of the real go/ssa of /repo's current tree (own executor over golang.org/x/tools/go/ssa) with z3 deciding every branch and assertion over symbolic inputs, harness choices and scheduler choices; cvc5 re-discharges assertion queries in the thorough tier; counterexamples replayed natively (go test -overlay), or - for TLS-stub harnesses and paths on which goroutines of the code under test ran - confirmed by re-executing the real SSA with inputs and schedule pinned"
 
-# property -> (claimed?, level text, level note)
-CLAIMS = {
- "C01": ("Every path of dataReader.Read over all octet streams up to the stated length (symbolic octets, three segmentation/buffer regimes), compared with a reference unstuffer written from the statement; holds within the bound, bugs come back as concrete streams replayed against the real build.",
-         "Bounds: stream length <= 5 (quick) / 7 (thorough); bufio and dataReader executed from source; longer streams outside the claim."),
- "C02": ("The real server loop (handleConn, handleData, handleDataLMTP incl. its goroutine, bufio, textproto) executed symbolically on DATA bodies with a bait command and 3-4 arbitrary octets around a '.', every backend read/return behaviour, four size limits and three server flavours; the oracle places the true end marker with refUnstuff and demands that exactly the lines after it execute.",
-         "Bounds: 3 (quick) / 4 (thorough) symbolic 7-bit octets at fixed positions; scheduler without pre-emption (deliveries run to their next blocking point)."),
- "C03": ("All histories of 3 (quick) / 4 (thorough) commands over an 18-command alphabet, lock-step through the real loop, with symbolic backend verdicts; a reference transaction state machine predicts the exact callback sequence, the reply class of every command and the final envelope state.",
-         "Bounds: history length 3/4, alphabet arguments concrete, MaxRecipients in {0,1}; BDAT histories are covered under C05/C07, STARTTLS/AUTH under C09/C10."),
- "C04": ("One command line of up to 4 (quick) / 5 (thorough) arbitrary 7-bit octets from three connection states through the real loop: exactly one reply per line, strict RFC 5321 reply grammar with matching enhanced-code class, connection usable afterwards.",
-         "Bounds: line length, 7-bit octets (case mapping of non-ASCII is outside the executor's intrinsic); the echo of control octets is a listed known finding. Pipelining/stale-verdict parts: see DESIGN.md."),
- "C05": ("BDAT refusal paths with the chunk being a command line (two octets arbitrary) and all chunkings of <= 2/3 chunks of 0..2 arbitrary octets through the real handleBdat, its delivery goroutine and io.Pipe (executed from source on the engine's scheduler), three segmentations.",
-         "Bounds: chunk sizes <= 2, <= 2 (quick) / 3 (thorough) chunks, no pre-emption; MaxLineLength interplay see DESIGN.md (known limitation of the limiter placement)."),
- "C06": ("One-step inductive harness on the reader's 64-bit budget arithmetic from an arbitrary state; whole DATA transactions with N around the message size, differential on accept/refuse; SIZE= declarations of 1-3 arbitrary digits against an arbitrary limit.",
-         "Bounds: messages <= 2/3 arbitrary octets + CRLF, N <= L+4, SIZE <= 3 digits, limit <= 1200; BDAT limit arithmetic is exercised in C05."),
- "C07": ("Every cut offset of DATA and two-chunk BDAT conversations with arbitrary message octets, three kinds of connection end, SMTP/LMTP/per-recipient LMTP, plus every abandoning command after a first chunk; the backend reader's terminating error and the replies are compared with what the delivered prefix justifies.",
-         "Bounds: 3/4 message octets, chunks of 2+3 octets, no pre-emption."),
- "C08": ("Prefix of <= 2/3 commands, one of five closing events, and a suffix of 2 commands already buffered in the same segment, through the real loop; trace oracle with session identities (exactly one Logout, nothing after it, nothing after the closing reply, no recovered panic, no goroutine left).",
-         "Bounds: 8-command alphabet, prefix 2 (quick) / 3 (thorough), suffix 2; idle time-out is an error value returned by the harness connection."),
- "C19": ("Command lines of arbitrary 7-bit octets (no crash, no recovered panic, one reply, connection survives) and lines around MaxLineLength at three positions under three segmentations through the real limiter, bufio and loop.",
-         "Bounds: MaxLineLength = 24 in the limit harness, line lengths max-3..max+4, lines <= 4/5 octets in the garbage harness; 8-bit command octets outside (case-mapping intrinsic)."),
- "C09": ("AUTH reachability over TLS state x AllowInsecureAuth x backend kind x greeting (plaintext natively validated, TLS states on the TLS stub), server exchanges with base64 of arbitrary octets / '=' / '*' / non-base64 lines, the client's Auth against a scripted peer with arbitrary challenge and response octets, and AUTH after a failed STARTTLS handshake; encoding/base64 executed from source against an independent reference encoder.",
-         "Bounds: 0..2 octets per response/challenge, 0..1 (quick) / 0..2 (thorough) challenge steps. TLS is a stub (contract in DESIGN.md section 2.4)."),
- "C10": ("STARTTLS on the server from four plaintext states with an injected plaintext command (two octets arbitrary) and on the client against six peer misbehaviours, through NewClientStartTLS and the package-level SendMail; relative to the TLS stub contract.",
-         "Both harnesses need the crypto/tls stub, so there is no native translator validation for C10; counterexamples are confirmed by pinned re-execution of the real SSA in the engine. The TLS protocol itself is outside."),
- "C11": ("MAIL/RCPT lines: all strings of <= 3/4 symbols over a 15-symbol alphabet in three frames, single-octet mutations (arbitrary 7-bit octet) of seven valid paths, and every parameter with arbitrary short values, classified by an independent narrow reference grammar (valid / definitely invalid / unspecified); parser, parseArgs, the regexp-based xtext decoders and strconv executed from source.",
-         "Bounds: path <= 3/4 symbols, values <= 3 octets; unspecified inputs are not judged; RRVS not encoded (time.Parse)."),
- "C12": ("The complete configuration space x 9 extension probes through handleGreet and the handlers, compared with an independent capability list; the TLS-active third runs on the TLS stub.",
-         "Exhaustive over the finite space with limits 1000 / 7; other limit values and the RRVS-enabled probe are outside."),
- "C13": ("LMTP final replies for every recipient list over two addresses, every contract-conforming script of SetStatus calls, return value, panic and early failure, DATA and BDAT, plain and per-recipient sessions, with the delivery goroutine pre-empted at synchronisation points; deadlocks and leaked goroutines are violations.",
-         "Bounds: <= 2 (quick) / 3 (thorough) recipients, <= 1/2 pre-emptions, <= 4/6 free scheduling forks."),
- "C14": ("xtext round trip on all strings of <= 2/3 7-bit octets and the three address codecs on ONE SYMBOLIC Unicode scalar (a handful of paths decide all 1 112 064 scalar values), encoders, the regexp-driven decoders, strconv and utf8 executed from source.",
-         "The whole option struct's trip is decomposed: client line construction is C15's, server parsing C11's; this check owns codec inversion. RRVS outside (time formatting not encoded)."),
- "C15": ("Client.Mail/Rcpt/Hello/Verify with one hostile argument of arbitrary octets at a time and a symbolic capability map: at most one CRLF-terminated line or a local error with nothing written; parameters only for advertised extensions; REQUIRETLS/SMTPUTF8 never dropped.",
-         "Bounds: hostile argument <= 2/3 (mail/rcpt) or 3/4 (hello/verify) octets; capability maps: one extension under test, the rest jointly on/off."),
- "C16": ("Client DATA writer and server composed sequentially: arbitrary bodies (CR only before LF) in three Write calls at arbitrary cut points; the wire octets are served by the real server and the backend must read refNormalize(body) with the same envelope; verdict and double Close.",
-         "Bounds: body <= 4/5 octets, 3 Write calls."),
- "C17": ("Backend errors from the four callbacks with symbolic reply code, symbolic enhanced code (set/unset/absent) and 1-2 lines of arbitrary text octets: strict reply grammar on the wire, then the same octets through the real client, whose SMTPError must equal the backend's.",
-         "Bounds: text lines <= 2/3 octets, <= 2 lines; control octets in backend messages outside."),
- "C18": ("LMTP client against a scripted peer over 1..2/3 consecutive transactions with arbitrary accept/refuse patterns and verdicts, with and without a status callback; the read position of the scripted connection shows whether Close consumed exactly this transaction's replies.",
-         "Bounds: <= 2 recipients per transaction, <= 2 (quick) / 3 (thorough) transactions."),
- "C20": ("Serve over arbitrary Accept result sequences followed by Close or Shutdown on the engine's cooperative scheduler (deadlock = all goroutines blocked, leak = goroutines alive at the end), and three connection scenarios under a vector-clock happens-before monitor over go-smtp's own loads and stores; unlisted races are additionally looked for with the Go race detector on the natively compiled harness.",
-         "Bounds: scripts <= 3/5, <= 1/2 pre-emptions at synchronisation operations, <= 3/5 free scheduling forks. This is a bounded check of the happens-before discipline on explored schedules, not a race-freedom proof; five races between Server.Close and the handlers are listed known findings."),
+import json as _json
+_META = _json.load(open("/verif/meta.json"))
+
+def _note(pid):
+    n = len(_META.get(pid, {}).get("bounds", []))
+    return "Bounds, stubs and assumptions per harness (%d entries) are in /verif/meta.json, copied into the evidence file on every run (coverage.bounds / outside_bounds) and listed in DESIGN.md section 5.0; everything beyond them is outside the claim." % n
+
+# property -> (level text, level note)
+_T = {
+ "C01": "dataReader.Read on every octet stream up to the stated length (symbolic octets; every combination of network segmentation and backend buffer size; end of input alone or together with the last octets) against a reference unstuffer written from the statement, and the same differential through the whole server.",
+ "C02": "The real server loop on DATA bodies with a bait command and arbitrary octets around a '.', every backend read / return behaviour (incl. the library's own sentinel errors), size limits around the message, SMTP and both LMTP flavours; read deadlines expiring in front of every message octet.",
+ "C03": "All command histories of the stated length over a 22-command alphabet (incl. chunked transfers) against a reference transaction state machine, from the initial state, from inside an open transaction, one inductive step from an arbitrary state; transaction isolation and greeting equivalence with the real code as its own oracle.",
+ "C04": "One reply per command, strict reply grammar, own verdict: arbitrary command lines, pipelined against lock-step histories, seven conversations under arbitrary cuts, backend errors of every shape, stale verdicts of aborted deliveries, read failures inside AUTH and inside command lines, connection B after connection A on one server.",
+ "C05": "BDAT framing through the real handleBdat, delivery goroutine and io.Pipe: refusals whose chunk is a command line, all small chunkings, refusals in mid-transfer, cut and late chunks, size syntax, DATA against BDAT on the same message, and the line limiter around chunks under five segmentations.",
+ "C06": "One-step inductive harnesses on the DATA reader's 64-bit budget and on the BDAT running total from an arbitrary state; whole transactions (first and second on a connection) with N around the message size; SIZE= and BDAT sizes at every integer boundary.",
+ "C07": "Every cut offset of DATA and BDAT conversations with arbitrary octets, three kinds of connection end, size limits inside the message, backends that read again after an error, deadlines expiring inside chunks, abandoning commands incl. STARTTLS, huge announced sizes.",
+ "C08": "Prefix, closing event (six kinds), buffered suffix through the real loop with session identities; connection ending while Server.Close runs with a slow Logout (scheduler-explored); transfers ending in panics; nothing of one connection seen by the next.",
+ "C09": "AUTH reachability over TLS state x AllowInsecureAuth x backend kind x greeting (TLS states on the stub), exchanges with arbitrary / empty / cancelling / malformed responses, data returned with success, the client's Auth against a scripted peer, AUTH after a failed handshake and across STARTTLS with a failing Logout.",
+ "C10": "STARTTLS on the server from four plaintext states with plaintext pipelined behind it (commands, long and unterminated lines), session replacement and where AUTH inside TLS lands; on the client against six peer misbehaviours and four inside-TLS greetings; relative to the TLS stub contract.",
+ "C11": "MAIL/RCPT lines: all short strings over an alphabet in three frames, octet mutations of valid paths and parameter templates (one and two hexchars), several parameters under both map orders, source routes, SIZE at integer boundaries, letter case of every keyword - against an independent narrow reference grammar.",
+ "C12": "The complete configuration space x 15 probes (each in both letter cases) through handleGreet and the handlers against an independent capability list, incl. behaviour after a failed STARTTLS and after AUTH; the TLS-active part on the stub.",
+ "C13": "LMTP final replies for every recipient list over two addresses and every contract-conforming script of SetStatus calls, return value, panic, early failure; DATA and BDAT; pre-empted delivery goroutine; three messages in a row; recipients differing only in case; the LMTP server against the SMTP server on the same message.",
+ "C14": "xtext and utf-8-addr codecs on ONE symbolic Unicode scalar (a handful of paths decide all scalar values) and on short strings; the whole option struct's trip client line -> real server -> backend, incl. look-alike escapes and options across calls.",
+ "C15": "Client.Mail/Rcpt/Hello/Verify with one hostile argument of arbitrary octets at a time and a symbolic capability map; state after a refused call; capabilities after a real re-greeting (subset, bare, refused with HELO fallback).",
+ "C16": "Client DATA writer and real server composed: arbitrary bodies in three Write calls, the wire cut at arbitrary offsets on the server side, recipient lists with repeats, per-recipient verdicts with replies in one or many reads, a follow-up command, SendMail against the explicit calls.",
+ "C17": "Backend errors from the four callbacks with symbolic reply code, enhanced code set / unset / absent and arbitrary text octets: strict grammar on the wire, then through the real client; look-alike codes, two refusals in a row, reply stream under arbitrary cuts.",
+ "C18": "LMTP client against a scripted peer over consecutive transactions with arbitrary accept / refuse patterns, verdicts and ways of opening the writer, replies in one or many reads; a transaction after an arbitrary earlier one against the same transaction on a fresh client.",
+ "C19": "Arbitrary command lines (7-bit, one arbitrary scalar, one arbitrary high octet); lines around MaxLineLength at six positions incl. around BDAT chunks and behind a SASL exchange under three segmentations; the limiter as an inductive step for every limit; the error threshold under mixed malformed input.",
+ "C20": "Serve over arbitrary Accept result sequences followed by Close or Shutdown on the engine's cooperative scheduler (deadlock = all goroutines blocked, leak = goroutines alive), and eight connection scenarios under a vector-clock happens-before monitor over go-smtp's own loads and stores (incl. append's element writes); unlisted races are additionally looked for with the Go race detector on the natively compiled harness. A bounded check of the happens-before discipline on explored schedules, not a race-freedom proof.",
 }
+CLAIMS = {k: (v, _note(k)) for k, v in _T.items()}
 NA = {}
 
 def main():
@@ -87,7 +75,7 @@ def main():
         }],
         "checks": checks,
         "not_applicable": na,
-        "notes": "exit 0 = held within bounds (KNOWN-FINDING lines allowed), 1 = natively replayed VIOLATION, 2 = inconclusive (never success). See DESIGN.md.",
+        "notes": "exit 0 = held within bounds (KNOWN-FINDING lines allowed), 1 = confirmed VIOLATION (native replay, or pinned re-execution where the native scheduler / real TLS cannot be forced), 2 = inconclusive (never success). See DESIGN.md.",
     }
     json.dump(m, open("/verif/MANIFEST.json", "w"), indent=1)
     print("wrote MANIFEST.json: %d checks, %d not applicable" % (len(checks), len(na)))
